@@ -634,3 +634,42 @@ func RetVals(r *ssa.Return) []ssa.Value {
 	}
 	return out
 }
+
+// GuardsOnEdge: guards established when control moves from pred to succ:
+// those holding at pred plus pred's own branch condition.
+func GuardsOnEdge(pred, succ *ssa.BasicBlock) []Guard {
+	gs := GuardsAt(pred)
+	if ifi, ok := pred.Instrs[len(pred.Instrs)-1].(*ssa.If); ok && pred.Succs[0] != pred.Succs[1] {
+		pol := pred.Succs[0] == succ
+		s := Render(ifi.Cond)
+		if !pol {
+			s = "!" + s
+		}
+		gs = append(gs, Guard{ifi.Cond, pol, s})
+	}
+	return gs
+}
+
+// AllEdgesGuarded: every way of entering b establishes a guard accepted by
+// match (handles `if a || b { ... }` where the block has one predecessor per
+// disjunct). For a single-predecessor block this is HasGuard.
+func AllEdgesGuarded(b *ssa.BasicBlock, match func(g Guard) bool) bool {
+	if HasGuard(b, match) {
+		return true
+	}
+	if len(b.Preds) < 2 {
+		return false
+	}
+	for _, p := range b.Preds {
+		ok := false
+		for _, g := range GuardsOnEdge(p, b) {
+			if match(g) {
+				ok = true
+			}
+		}
+		if !ok {
+			return false
+		}
+	}
+	return true
+}
